@@ -16,10 +16,13 @@ Names   == {"A", "B"}
 Urls    == {"mem", "d1", "d2"}
 Handles == {"h1", "h2", "h3", "h4"}
 FeedIds == {"f1", "f2"}
-Colls   == {"c0", "c1", "c2"}    \* c1 can be dropped and re-created; c2 is created on first use and never dropped
+Colls   == {"c0", "c1", "c2", "c3"}    \* c1 can be dropped and re-created; c2 and c3 are created on first use and never
+                                        \* dropped; c3 has the same collection name as c1, in another scope
 Modes   == {"CreateOrOpen", "CreateNew", "ReOpenExisting"}
 
-NoStore == [exists |-> FALSE, docs |-> [c \in Colls |-> {}], dd |-> FALSE, c1 |-> FALSE]
+NoStore == [exists |-> FALSE, docs |-> [c \in Colls |-> {}], dd |-> FALSE, c1 |-> FALSE, dir |-> FALSE]
+(* dir: the bucket's directory exists although there is no bucket in it (someone else created it): CreateNew is documented *)
+(* to fail "if the directory exists"; the other modes do not care                                                        *)
 NoHandle == [st |-> "free", n |-> "-", u |-> "-", stale |-> FALSE, ep |-> 0]   \* ep: the registration it belongs to
 NoFeed == [st |-> "none", n |-> "-", u |-> "-", colls |-> {}, kind |-> "-", done |-> FALSE, loose |-> FALSE]
 (* loose: started through a handle whose cached collection c1 may be the dropped one - what it listens to is not specified *)
@@ -43,7 +46,7 @@ ExpectOpen(S, n, u, mode) ==
          ELSE IF u # S.reg[n].url THEN "otherurl" ELSE "ok"
     ELSE IF u = "mem" THEN (IF mode = "ReOpenExisting" THEN "notexist" ELSE "ok")
          ELSE IF S.store[n][u].exists THEN (IF mode = "CreateNew" THEN "exists" ELSE "ok")
-         ELSE (IF mode = "ReOpenExisting" THEN "notexist" ELSE "ok")
+         ELSE (IF mode = "ReOpenExisting" THEN "notexist" ELSE IF mode = "CreateNew" /\ S.store[n][u].dir THEN "exists" ELSE "ok")
 
 (* feeds of bucket n end (their done channel closes) *)
 EndFeedsOf(S, n) ==
@@ -57,7 +60,7 @@ Expect(S, a) ==
     LET hd == S.hs[a.h] IN
     CASE a.kind = "Open" -> ExpectOpen(S, a.n, a.u, a.mode)
       [] a.kind = "Close" -> "ok"
-      [] a.kind = "CloseAndDelete" -> IF Registered(S, hd.n) /\ S.reg[hd.n].ep = hd.ep THEN "ok" ELSE "any"
+      [] a.kind = "CloseAndDelete" -> IF hd.st \in {"open", "closed", "dead"} /\ Registered(S, hd.n) /\ S.reg[hd.n].ep = hd.ep THEN "ok" ELSE "any"
       [] a.kind = "Write" ->
             IF hd.st = "open" THEN (IF hd.stale /\ a.c = "c1" THEN "any" ELSE "ok")
             ELSE IF hd.st = "closed" THEN "closed" ELSE "any"
@@ -81,7 +84,7 @@ Apply(S, a) ==
                 [S EXCEPT !.reg[a.n] = [url |-> a.u, cnt |-> S.reg[a.n].cnt + 1, ep |-> ep],
                           !.nep = IF Registered(S, a.n) THEN @ ELSE @ + 1,
                           !.store[a.n][a.u] = IF S.store[a.n][a.u].exists THEN S.store[a.n][a.u]
-                                               ELSE [exists |-> TRUE, docs |-> [c \in Colls |-> {}], dd |-> FALSE, c1 |-> FALSE],
+                                               ELSE [exists |-> TRUE, docs |-> [c \in Colls |-> {}], dd |-> FALSE, c1 |-> FALSE, dir |-> FALSE],
                           !.hs[a.h] = [st |-> "open", n |-> a.n, u |-> a.u, stale |-> FALSE, ep |-> ep]]
       [] a.kind = "Close" ->
            IF hd.st # "open" THEN S      \* closing a closed (or dead) handle again changes nothing
@@ -129,7 +132,7 @@ Apply(S, a) ==
                     LET lo == hd.stale /\ (a.fk = "multi" \/ (a.fk # "bucket" /\ a.c = "c1")) IN
                     IF a.fk \in {"dump", "dumpnb"} THEN [st |-> "ended", n |-> hd.n, u |-> hd.u, colls |-> {a.c}, kind |-> a.fk, done |-> TRUE, loose |-> lo]
                     ELSE [st |-> "running", n |-> hd.n, u |-> hd.u,
-                          colls |-> IF a.fk = "multi" THEN {"c0", "c1"} ELSE IF a.fk = "bucket" THEN {"c0"} ELSE {a.c},
+                          colls |-> IF a.fk = "multi" THEN {"c0", "c1", "c3"} ELSE IF a.fk = "bucket" THEN {"c0"} ELSE {a.c},
                           kind |-> a.fk, done |-> FALSE, loose |-> lo]]
       [] a.kind = "PutDDoc" ->     \* a design document on collection c1
            IF hd.st # "open" \/ (hd.stale /\ ~a.force) THEN S
